@@ -610,7 +610,12 @@ func (mgr *Manager) invalidateTags(updatedStreams, resetStreams, addedStreams bi
 			//TODO: is a matching stream really uncertain?
 			tin.Uncertain = mgr.allStreams
 		} else if ti.features.MainFeatures&^query.FeatureFilterID == 0 {
-			continue
+			// an id filter can only change its result for streams that did not exist before
+			if addedStreams.IsZero() {
+				continue
+			}
+			tin.Uncertain = ti.Uncertain.Copy()
+			tin.Uncertain.Or(addedStreams)
 		} else {
 			tin.Uncertain = ti.Uncertain.Copy()
 			tin.Uncertain.Or(addedStreams)
